@@ -336,7 +336,8 @@ viol = [("proof of possession of bundle 2 is broken", dict(base1, ksr=bad_pop)),
         ("the KSR is for another domain", dict(base1, ksr=dict(KSR1, domain="example"))),
         ("the signature validity differs from the ZSK policy", dict(base1, ksr=skrgen.honest_request("next-req", KSR1["bundles"][0]["inc"], 2, [b["keys"] for b in KSR1["bundles"]], ZP, validity=D(days=25)))),
         ("the KSR replays the id of the previous SKR", dict(base1, ksr=successor(PREV1, ZP, rid=PREV1["id"]))),
-        ("the KSR replays the id of the previous SKR under another serial", dict(base1, ksr=dict(successor(PREV1, ZP, rid=PREV1["id"]), serial=5))),
+        ("the KSR replays the id of the previous SKR under another serial", dict(base1, ksr=dict(successor(PREV1, ZP, rid=PREV1["id"]), serial=5,
+                                                                                              bundles=[dict(b, id=f"fresh-{j}") for j, b in enumerate(successor(PREV1, ZP, rid=PREV1["id"])["bundles"])]))),
         ("the overlap with the previous SKR is below the minimum", dict(base1, ksr=successor(PREV1, ZP, overlap=D(days=8)))),
         ("the first bundle's keys are not those of the previous SKR's last bundle", dict(base1, ksr=successor(PREV1, ZP, first_keys=[ZSKS[3]]))),
         ("the KSR is truncated", dict(base1, ksr=ksrxml.render_ksr(KSR1).encode()[:900], shape=([2, 1], 2))),
